@@ -23,7 +23,9 @@ macro_rules! sub {
 }
 
 sub!(util, "util.rs");
+sub!(codec, "codec.rs");
 sub!(c11, "c11.rs");
+sub!(c12, "c12.rs");
 
 pub async fn main() -> Result<(), easy_error::Terminator> {
     let args: Vec<String> = std::env::args().collect();
@@ -37,6 +39,7 @@ pub async fn main() -> Result<(), easy_error::Terminator> {
     std::panic::set_hook(Box::new(|_| {}));
     match mode.as_str() {
         "c11" => c11::run(&mut out).await,
+        "c12" => c12::run(&mut out).await,
         _ => {
             eprintln!("unknown mode {}", mode);
             std::process::exit(2);
